@@ -27,17 +27,22 @@ def iter_dump_blocks(path):
             yield "".join(buf)
 
 
-def select_states(dump_path, n, salt, keep=lambda blk: True):
-    """Reservoir-free two pass selection: count matching blocks, choose n indices with the seeded rng, parse only those."""
+def select_states(dump_path, n, salt, keep=lambda blk: True, always=None):
+    """Two-pass selection: count matching blocks, choose n indices with the seeded rng, parse only those.
+    Blocks for which `always(blk)` holds are selected unconditionally (small strata that must not be sampled away)."""
     total = 0
+    forced = set()
     for blk in iter_dump_blocks(dump_path):
         if keep(blk):
+            if always is not None and always(blk):
+                forced.add(total)
             total += 1
     r = common.rng("select", salt)
     if n is None or n >= total:
         chosen = None
     else:
-        chosen = set(r.sample(range(total), n))
+        rest = [k for k in range(total) if k not in forced]
+        chosen = set(r.sample(rest, min(len(rest), max(0, n - len(forced))))) | forced
     out = []
     k = 0
     for blk in iter_dump_blocks(dump_path):
